@@ -99,22 +99,30 @@ def run_check(check_id, tier, seed, only_case=None):
             env = dict(os.environ)
             env["PYTHONPATH"] = boot.VERIF + os.pathsep + boot.REPO
             env.setdefault("PYTHONHASHSEED", "0")
+            # stdout of the workers is discarded (disp=True cases print) and
+            # stderr goes to a file: a full pipe would block a worker
+            ep = os.path.join(tmp, f"err{s}.txt")
             p = subprocess.Popen(
                 [sys.executable, "-m", "vlib.worker", check_id, sp, op],
                 cwd=boot.VERIF, env=env,
-                stdout=subprocess.PIPE, stderr=subprocess.PIPE, text=True)
-            procs.append((p, op, len(shard)))
+                stdout=subprocess.DEVNULL, stderr=open(ep, "w"), text=True)
+            procs.append((p, op, len(shard), ep))
         budget = getattr(mod, "WALL_BUDGET", {}).get(tier, 3600)
         records = []
         worker_fail = []
-        for p, op, nsh in procs:
+        for p, op, nsh, ep in procs:
             left = max(5.0, budget - (time.perf_counter() - t0))
             try:
-                so, se = p.communicate(timeout=left)
+                p.wait(timeout=left)
             except subprocess.TimeoutExpired:
                 p.kill()
-                so, se = p.communicate()
+                p.wait()
                 worker_fail.append(f"worker watchdog fired after {budget}s")
+            try:
+                with open(ep) as fh:
+                    se = fh.read()
+            except OSError:
+                se = ""
             if p.returncode not in (0, None) and p.returncode != -9:
                 worker_fail.append(
                     f"worker exit {p.returncode}: {se[-1500:]}")
